@@ -43,6 +43,10 @@ impl<T: Clone + TTOverwriteable> TranspositionTable<T> {
 
         self.generation = 0;
         self.occupied = 0;
+
+        // Clearing the table is work that takes time: the simulator charges it to its clock
+        #[cfg(jgilchrist_tcheran_verif)]
+        crate::verif_seam::bulk_work(self.data.len() as u64);
     }
 
     pub fn resize(&mut self, size_mb: usize) {
@@ -60,6 +64,9 @@ impl<T: Clone + TTOverwriteable> TranspositionTable<T> {
         self.size = size_mb;
         self.occupied = 0;
         self.generation = 0;
+
+        #[cfg(jgilchrist_tcheran_verif)]
+        crate::verif_seam::bulk_work(number_of_entries as u64);
     }
 
     pub fn new_generation(&mut self) {
